@@ -25,7 +25,7 @@ CLAIMS = {
             "Compute-heavy programs (breadth -1..64, sometimes 200-3000; index-dependent allocation, halts, jumps, parent-memory reads, failing children, nested compute) x pools {1,3,8} (thorough {1,2,3,5,8,16}) x seeded delays injected from the cost spy inside the rayon tasks: parent stack/memory/pc/gas/Ok-Err must equal the sequential model; number of charged ops must equal the model's. A join matrix puts the children's combined allocation just below / at / above the memory limit (for the children alone and for parent + children) for parent memories 0..10240, breadths 1..16, three child endings and parent stacks at the limit; breadths 3000..10000 occur in every run.",
             "if every child ends at or before the Compute op the resume position is unspecified", "5 C10"),
     "C11": ("vm", "runtime monitoring: recording StateRead spy (exact request log at the API boundary) + scripted result shapes + reference memory image",
-            "4 read ops x key lengths x counts {-1,0,1,2,7,MAX} x memory sizes x addresses (negative, 0, mid, end-1, end, end+1, MAX) x 8 scripted result shapes (empty, ragged, fewer/more than asked, error) with differently-answering pre and post views; the spy log must show exactly one request with the expected view/contract/key/count, memory must equal the documented layout, nothing else may change. A second matrix reads 63..2048 keys into memory that fits exactly / is one word short, with dense and sparse state.",
+            "4 read ops x key lengths x counts {-1,0,1,2,7,MAX} x memory sizes x addresses (negative, 0, mid, end-1, end, end+1, MAX) x 8 scripted result shapes (empty, ragged, fewer/more than asked, error) with differently-answering pre and post views; the spy log must show exactly one request with the expected view/contract/key/count, memory must equal the documented layout, nothing else may change. A second matrix reads 63..2048 keys into memory that fits exactly / is one word short, with dense and sparse state. A state error (scripted failure or poisoned key) must reach the caller unchanged, after exactly one request.",
             "zero returned values with an out-of-range address is unspecified", "5 C11"),
     "C12": ("vm", "runtime monitoring: lock-step differential of access/crypto ops against solution data and the essential-hash / essential-sign crates (+ ed25519-dalek, secp256k1 directly)",
             "PredicateData* over all (slot, index, len) in and out of range for several multi-solution sets and every solution index; This*Address; PredicateExists for genuine and bit-flipped hashes, also from 8 concurrent compute children; Sha256 for every byte length 0..80 (200 thorough); genuine and corrupted ed25519 / secp256k1 signatures, recovery ids -1..5. Several solutions may share a predicate address (different or equal data); a 100-solution set; predicate-data slots of 1023..10000 words; Sha256 lengths in windows around multiples of 64 / 512 bytes up to the largest message the stack holds.",
@@ -52,7 +52,7 @@ CLAIMS = {
             "Each scenario (wider graphs, up to 8 solutions) runs under pools {1,2,5,16} x 2 delay seeds (thorough {1,2,3,5,8,16} x 4): Ok/Err, failing solution and node indices, gas and computed mutations in order must be identical across all runs and equal to the sequential reference; Compute-level determinism under pools is covered by C10's pool matrix. The order in which failing solutions / nodes are reported is part of the compared result; check_set_predicates and check_predicate (called once per solution and run mode) must agree; forks inside loops whose children leave with a loop of their own still active; sets of 17..40 solutions.",
             "error payloads are not compared (rayon returns an arbitrary child's error); a run observing fewer than 10 distinct task orders is inconclusive", "5 C02"),
     "C03": ("scen", "runtime monitoring: observed-value beacons (the words a program just read travel out through a zero-count read) compared with the harness' overlay map; pass separation and exactly-once from the event log",
-            "Scenarios with post/pre readers at roots, middle nodes and leaves (own and external contracts, counts 0-4, key lengths 0-2, keys at word carry, deletions, declared and computed mutations, several solutions per contract): every observed range must equal overlay(declared + first-pass computed, empty = deleted, else pre-state); pre-reads must not see mutations; no post-dependent node may start before the last first-pass node of any solution has ended; results are compared with the reference evaluated over the harness' own overlay. Readers may sit behind control flow (a Halt that is jumped over); ranges of 65..600 keys; the single-predicate entry point is driven too.",
+            "Scenarios with post/pre readers at roots, middle nodes and leaves (own and external contracts, counts 0-4, key lengths 0-2, keys at word carry, deletions, declared and computed mutations, several solutions per contract): every observed range must equal overlay(declared + first-pass computed, empty = deleted, else pre-state); pre-reads must not see mutations; no post-dependent node may start before the last first-pass node of any solution has ended; results are compared with the reference evaluated over the harness' own overlay. Readers may sit behind control flow (a Halt that is jumped over); ranges of 65..600 keys; the single-predicate entry point is driven too. State fault injection: reads covering a poisoned key fail; a program that gets a value where the reference's read fails is reported (read-should-have-failed).",
             "conflicting values for one contract/key from different solutions are the D2 class (C04's known finding): overlay order is then the set order", "5 C03"),
     "C04": ("scen", "runtime monitoring: metamorphic re-execution of every set under reversal, rotation and random permutation of its solutions",
             "Content address, check_set verdict, two-pass verdict, total gas and computed mutations per solution (mapped through the permutation) must be identical; sets in which two solutions give one contract/key different values are detected by the harness and carry the D2 signature (KNOWN-FINDING, canonical witness executed every run); any other order dependence is a VIOLATION. Sets may list the same solution twice (adjacent or not) and have 1-6, 17-40 or 100 solutions.",
@@ -67,7 +67,7 @@ CLAIMS = {
             "30 000 keys x contracts: recover(sign(c, sk)) == pk(sk) under any predicate order; after any content change recovery no longer yields the signer; recovery ids 0..255, bit flips, all-ones, zero and random signatures give errors (never panics) consistently across recover / verify / check_signed_contract; key and signature words equal the documented layout, are pairwise distinct, and the VM op consumes/produces exactly them. Contracts of up to 100 predicates and with a predicate at the validator's limits (up to 1000 nodes/edges) occur in every run.",
             "secp256k1 itself is trusted", "5 C19"),
     "C20": ("lock", "runtime monitoring: unique-id append-only histories with call/return stamps checked offline for a single total order consistent with observed predecessors and real time; Miri many-seeds (data races, UB, deadlock); TSan in the thorough tier",
-            "~3000 short native histories with 2-8 threads, 1-3 locks and closures of varying duration plus 16-thread histories of 200 000 ops; 8 Miri schedules (64 thorough) of 3 threads x 6 ops; overlap flag, lost/duplicated/torn updates, wrong return values, real-time order; a process that consumes no CPU for 30 s with operations outstanding is a deadlock. Closed bursts (persistent workers released together, 1-3 calls each, then a barrier; 10^5-10^6 bursts) with a progress-based stall verdict and a probe call; a poisoning workload (a closure panics inside apply; later calls must return or unwind) natively and under Miri; a progress monitor for steady traffic.",
+            "~3000 short native histories with 2-8 threads, 1-3 locks and closures of varying duration plus 16-thread histories of 200 000 ops; 8 Miri schedules (64 thorough) of 3 threads x 6 ops; overlap flag, lost/duplicated/torn updates, wrong return values, real-time order; a process that consumes no CPU for 30 s with operations outstanding is a deadlock. Closed bursts (persistent workers released together, 1-3 calls each, then a barrier; 10^5-10^6 bursts) with a progress-based stall verdict and a probe call; a poisoning workload (a closure makes half of an update, lingers while callers queue up, and panics; afterwards every call must return or unwind and nobody may be let in on top of the half-applied update) natively and under Miri; a progress monitor for steady traffic.",
             "std::sync::Mutex is trusted; non-reentrant use only", "5 C20"),
 }
 
